@@ -109,12 +109,18 @@ class ParseTimeout(argparse.Action):
 
     @staticmethod
     def unparse(value: float) -> str:
-        # less than 1s, render as ms
-        if value < 1:
-            return f"{int(value * 1000)}ms"
+        # whole seconds (from 1s up) and whole milliseconds are rendered compactly,
+        # provided that parse() gets the same value back (it divides milliseconds by 1000)
+        if value == value and abs(value) != float("inf"):
+            if value >= 1 and value == int(value):
+                return f"{int(value)}s"
 
-        # otherwise, render as s
-        return f"{int(value)}s"
+            ms = value * 1000
+            if ms == int(ms) and ms / 1000 == value:
+                return f"{int(ms)}ms"
+
+        # anything else is rendered exactly (repr round-trips floats)
+        return f"{value!r}s"
 
 
 class ParseCSVTraceEvent(argparse.Action):
